@@ -286,24 +286,33 @@ def api_calls():
 
     def tempo(c, pt):
         c.keep.append(oq.Tempo(tdsys(c), bath, prm, M.RHO_GEN2, 0.0))
-        return c.keep[-1].compute(0.35, progress_type=pt)
+        c.keep[-1].compute(0.0, progress_type=pt)           # nothing to do yet
+        r = c.keep[-1].compute(0.35, progress_type=pt)
+        c.keep[-1].compute(0.35, progress_type=pt)          # end time already reached: a call that propagates no step
+        return r
 
     def mean_field_tempo(c, pt):
         c.keep.append(oq.MeanFieldTempo(mfs(c), [bath], prm, [M.RHO_GEN2], 0.5))
-        return c.keep[-1].compute(0.35, progress_type=pt)
+        r = c.keep[-1].compute(0.35, progress_type=pt)
+        c.keep[-1].compute(0.35, progress_type=pt)          # end time already reached
+        return r
 
     def pt_tempo(c, pt):
         corr = oq.CustomSD(c.wrap(lambda w: 0.2 * w * np.exp(-w / 3.0)), cutoff=30.0, cutoff_type="hard", temperature=0.2)
         b = oq.Bath(0.5 * M.SZ, corr)
         c.keep.append(oq.PtTempo(b, 0.0, 0.35, oq.TempoParameters(dt=0.1, epsrel=1e-4)))
-        return c.keep[-1].get_process_tensor(progress_type=pt)
+        r = c.keep[-1].get_process_tensor(progress_type=pt)
+        c.keep[-1].compute(progress_type=pt)                # already complete
+        return r
 
     def gibbs_tempo(c, pt):
         corr = oq.CustomSD(c.wrap(lambda w: 0.2 * w * np.exp(-w / 3.0)), cutoff=30.0, cutoff_type="hard", temperature=0.7)
         b = oq.Bath(np.diag([0.5, -0.5]).astype(complex), corr)
         g = oq.GibbsTempo(oq.System(0.4 * M.SZ), b, oq.GibbsParameters(n_steps=3, epsrel=1e-4))
         c.keep.append(g)
-        return g.compute(progress_type=pt)
+        r = g.compute(progress_type=pt)
+        g.compute(progress_type=pt)                         # already complete
+        return r
 
     def compute_correlations(c, pt):
         return oq.compute_correlations(tdsys(c), P["pt"], M.SZ, M.SX, [0, 1], [1, 2], initial_state=M.RHO_GEN2,
@@ -318,7 +327,14 @@ def api_calls():
                       oq.PtTebdParameters(dt=0.1, order=2, epsrel=1e-7), dynamics_sites=[0])
         c.n += 1
         c.keep.append(t)
-        return t.compute(3 if c.k is None else 5, progress_type=pt)     # 5 > len(pt): fails midway
+        if c.k is None:
+            # calls that propagate no step: end_step 0 on a fresh object, and an end step that has been reached already
+            t.compute(0, progress_type=pt)
+            r = t.compute(3, progress_type=pt)
+            t.compute(3, progress_type=pt)
+            t.compute(2, progress_type=pt)
+            return r
+        return t.compute(5, progress_type=pt)     # 5 > len(pt): fails midway
 
     def pt_tebd_multithread(c, pt):
         # real ThreadPoolExecutor of the back-end: its worker threads must be gone when compute() returns or raises
